@@ -36,6 +36,8 @@ class FnSpec:
         self.twins = []             # (name, [raw])
         self.novacuity = False
         self.attrs = []             # extra attributes
+        self.derefs = []            # (ident, op): R9 explicit deref of a reference operand of a bit operator
+        self.r12 = False            # X.iter().any(c) -> vx_any(X.as_slice(), c)
 
 
 class ItemSpec:
@@ -124,6 +126,11 @@ def parse_vspec(path):
             cur_fn.attrs.append(rest)
         elif kw == "novacuity":
             cur_fn.novacuity = True
+        elif kw == "deref":
+            a, b = rest.split()
+            cur_fn.derefs.append((a, b))
+        elif kw == "r12":
+            cur_fn.r12 = True
         elif kw == "closure":
             m = re.match(r"(\d+)\s+(.*)$", rest)
             body = []
@@ -135,11 +142,14 @@ def parse_vspec(path):
             cur_fn.loops[int(m.group(1))] = (m.group(3), body)
             raw_target = body
         elif kw == "hint":
-            m = re.match(r"(before|after)\s+(\"(?:[^\"\\]|\\.)*\")(\s+#(\d+))?$", rest)
-            if not m:
-                raise SystemExit(f"{path}:{ln}: bad hint")
             body = []
-            cur_fn.hints.append((m.group(1), json.loads(m.group(2)), int(m.group(4) or 1), body))
+            if rest.strip() == "tail":
+                cur_fn.hints.append(("tail", "", 1, body))
+            else:
+                m = re.match(r"(before|after)\s+(\"(?:[^\"\\]|\\.)*\")(\s+#(\d+))?$", rest)
+                if not m:
+                    raise SystemExit(f"{path}:{ln}: bad hint")
+                cur_fn.hints.append((m.group(1), json.loads(m.group(2)), int(m.group(4) or 1), body))
             raw_target = body
         elif kw == "rewrite":
             m = re.match(r"(\w+)\s+(\"(?:[^\"\\]|\\.)*\")\s*=>\s*(\"(?:[^\"\\]|\\.)*\")$", rest)
@@ -249,10 +259,19 @@ def process_fn(toks, it, fs: FnSpec, qual, ed: Edits, log, unit_in_trait_impl):
                 raise LostAnchor(f"{qual}: closure {n} not found ({len(cl)} closures)")
             c = cl[n - 1]
             # hdr: "(o: &Output) -> (b: bool)"  => |o: &Output| -> (b: bool)
-            m = re.match(r"\((.*)\)\s*(->\s*(.*))?$", hdr)
-            if not m:
+            depth = 0
+            endp = -1
+            for ix, ch in enumerate(hdr):
+                if ch == "(": depth += 1
+                elif ch == ")":
+                    depth -= 1
+                    if depth == 0:
+                        endp = ix; break
+            if endp < 0 or not hdr.startswith("("):
                 raise SystemExit(f"{qual}: bad closure header {hdr!r}")
-            params, ret = m.group(1), m.group(3)
+            params = hdr[1:endp]
+            tail = hdr[endp + 1:].strip()
+            ret = tail[2:].strip() if tail.startswith("->") else None
             head = "|" + params + "|" + (f" -> {ret}" if ret else "")
             spec = ("\n" + "\n".join(raw) + "\n") if raw else " "
             old = src[toks[c.bar1].pos:toks[c.bar2].end]
@@ -261,6 +280,102 @@ def process_fn(toks, it, fs: FnSpec, qual, ed: Edits, log, unit_in_trait_impl):
                 ed.insert(toks[c.body_last].end, " }", prio=-9)
             log["rewrites"].append({"rule": "RC", "fn": qual, "before": old, "after": head,
                                     "note": "closure parameter types / named result / contract added; body kept verbatim"})
+    # R3 (automatic): closure parameters that are patterns / `_`
+    cl_all = find_closures(toks, lo, hi)
+    for ci, c in enumerate(cl_all, 1):
+        if ci in fs.closures or c.bar1 == c.bar2:
+            continue
+        # split params at top-level commas
+        params = []
+        cur = []
+        k = c.bar1 + 1
+        while k < c.bar2:
+            t = toks[k]
+            if t.kind == "punct" and t.text in ("(", "[", "{"):
+                m2 = match_close(toks, k)
+                cur.extend(range(k, m2 + 1)); k = m2 + 1; continue
+            if t.kind == "punct" and t.text == ",":
+                params.append(cur); cur = []
+            else:
+                cur.append(k)
+            k += 1
+        if cur:
+            params.append(cur)
+        lets = []
+        newparams = []
+        changed = False
+        for pi, pr in enumerate(params):
+            sigp = [x for x in pr if toks[x].kind not in ("ws", "comment")]
+            if not sigp:
+                continue
+            # pattern part = up to a top-level ':'
+            colon = None
+            for x in sigp:
+                if toks[x].kind == "punct" and toks[x].text == ":":
+                    colon = x; break
+            pat = [x for x in sigp if colon is None or x < colon]
+            ty = "" if colon is None else src[toks[colon].pos:toks[sigp[-1]].end]
+            pat_txt = src[toks[pat[0]].pos:toks[pat[-1]].end]
+            simple = (len(pat) == 1 and toks[pat[0]].kind == "ident" and toks[pat[0]].text != "_") or \
+                     (len(pat) == 2 and toks[pat[0]].text == "mut" and toks[pat[1]].kind == "ident")
+            if simple:
+                newparams.append(pat_txt + ty)
+            else:
+                changed = True
+                nm = f"__vxp{ci}_{pi}"
+                newparams.append(nm + ty)
+                if pat_txt != "_":
+                    if pat_txt.startswith("&") and not pat_txt.startswith("&&"):
+                        lets.append(f"let {pat_txt[1:].strip()} = *{nm};")
+                    else:
+                        lets.append(f"let {pat_txt} = {nm};")
+        if changed:
+            old = src[toks[c.bar1].pos:toks[c.bar2].end]
+            new_head = "|" + ", ".join(newparams) + "|"
+            if c.block:
+                ed.replace(toks[c.bar1].pos, toks[c.bar2].end, new_head)
+                ed.insert(toks[c.body_first].end, " " + " ".join(lets), prio=-8)
+            else:
+                ed.replace(toks[c.bar1].pos, toks[c.bar2].end, new_head + " { " + " ".join(lets) + " ")
+                ed.insert(toks[c.body_last].end, " }", prio=-9)
+            log["rewrites"].append({"rule": "R3", "fn": qual, "before": old, "after": new_head + " { " + " ".join(lets) + " … }"})
+    # R9 (listed identifiers): explicit deref of a reference operand of a bit operator
+    for ident, op in fs.derefs:
+        cnt = 0
+        for k in range(lo, hi):
+            t = toks[k]
+            if t.kind == "ident" and t.text == ident:
+                nx = next_sig(toks, k + 1, hi)
+                pv = k - 1
+                while pv >= lo and toks[pv].kind in ("ws", "comment"):
+                    pv -= 1
+                if nx is not None and toks[nx].kind == "punct" and toks[nx].text == op and toks[pv].text not in ("*", ".", "&"):
+                    nn = next_sig(toks, nx + 1, hi)
+                    # binary use only: the operator must be followed by an operand
+                    ed.insert(t.pos, "*")
+                    cnt += 1
+        if cnt == 0:
+            raise LostAnchor(f"{qual}: deref {ident} {op}: no occurrence")
+        log["rewrites"].append({"rule": "R9", "fn": qual, "before": f"{ident} {op} …", "after": f"*{ident} {op} …", "count": cnt})
+    # R12: X.iter().any(c) -> vx_any(X.as_slice(), c)
+    if fs.r12:
+        cnt = 0
+        sg_idx = [k for k in range(lo, hi) if toks[k].kind not in ("ws", "comment")]
+        for ii in range(len(sg_idx) - 6):
+            seq = [toks[sg_idx[ii + d]].text for d in range(7)]
+            if seq == [".", "iter", "(", ")", ".", "any", "("]:
+                # receiver: ident (. ident)* ending right before sg_idx[ii]
+                jj = ii - 1
+                if jj < 0 or toks[sg_idx[jj]].kind != "ident":
+                    raise LostAnchor(f"{qual}: R12: unsupported receiver before .iter().any(")
+                while jj - 2 >= 0 and toks[sg_idx[jj - 1]].text == "." and toks[sg_idx[jj - 2]].kind == "ident":
+                    jj -= 2
+                recv = src[toks[sg_idx[jj]].pos:toks[sg_idx[ii - 1]].end]
+                ed.replace(toks[sg_idx[jj]].pos, toks[sg_idx[ii + 6]].end, f"vx_any({recv}.as_slice(), ")
+                cnt += 1
+        if cnt == 0:
+            raise LostAnchor(f"{qual}: R12: no `.iter().any(` found")
+        log["rewrites"].append({"rule": "R12", "fn": qual, "before": "X.iter().any(c)", "after": "vx_any(X.as_slice(), c)", "count": cnt})
     # loops
     if fs.loops:
         lp = find_loops(toks, lo, hi)
@@ -283,6 +398,28 @@ def process_fn(toks, it, fs: FnSpec, qual, ed: Edits, log, unit_in_trait_impl):
         log["rewrites"].append({"rule": rule, "fn": qual, "before": old, "after": new, "count": len(occ)})
     # hints
     for where, anchor, nth, raw in fs.hints:
+        chk0 = norm("\n".join(raw))
+        if not (chk0.startswith("proof {") or chk0.startswith("assert") or chk0.startswith("let ghost")):
+            raise SystemExit(f"{qual}: hint must be ghost code (proof block, assert, let ghost)")
+        if where == "tail":
+            # before the tail expression of the body: after the last depth-0 `;` or `}` of the body
+            k = lo
+            last = None
+            while k < hi:
+                t = toks[k]
+                if t.kind == "punct" and t.text in ("(", "[", "{"):
+                    k = match_close(toks, k)
+                    if toks[k].text == "}":
+                        last = k
+                elif t.kind == "punct" and t.text == ";":
+                    last = k
+                k += 1
+            rest_sig = [x for x in range((last + 1) if last is not None else lo, hi) if toks[x].kind not in ("ws", "comment")]
+            if last is None or not rest_sig:
+                log["lost_hints"].append({"fn": qual, "anchor": "tail"})
+                continue
+            ed.insert(toks[last].end, "\n" + "\n".join(raw) + "\n", prio=-2)
+            continue
         occ = find_subseq(toks, lo, hi, anchor)
         if len(occ) < nth:
             log["lost_hints"].append({"fn": qual, "anchor": anchor})
@@ -290,8 +427,8 @@ def process_fn(toks, it, fs: FnSpec, qual, ed: Edits, log, unit_in_trait_impl):
         a, b = occ[nth - 1]
         text = "\n".join(raw)
         chk = norm(text)
-        if not (chk.startswith("proof {") or chk.startswith("assert")):
-            raise SystemExit(f"{qual}: hint must be a proof block or an assert")
+        if not (chk.startswith("proof {") or chk.startswith("assert") or chk.startswith("let ghost")):
+            raise SystemExit(f"{qual}: hint must be ghost code (proof block, assert, let ghost)")
         if where == "before":
             ed.insert(toks[a].pos, text + "\n", prio=2)
         else:
